@@ -33,10 +33,11 @@ REQUIRE = {
     "monitors": {"state restored after normal exit": 60, "state restored after exception in block body": 30,
                  "state restored after injected fault (call level)": 100, "state restored after abandoned generator": 6},
     "min_nontrivial": {"quick": 150, "thorough": 2000},
-    "cover": {"operation": ["ConfigLoader.mask_params", "build_amp_matrix", "build_angle_amp_matrix", "build_int_matrix", "cal_fitfractions",
+    "cover": {"evaluation": ["eager", "traced"], "bounds_installed": [True, False], "operation": ["ConfigLoader.mask_params", "build_amp_matrix", "build_angle_amp_matrix", "build_int_matrix", "cal_fitfractions",
                             "factor_iteration", "fit_fractions(new)", "fit_fractions(old)", "mask_params",
                             "nested(mask_params>temp_total_gls_one>partial_weight>vm.temp_params)", "nested(temp_params>temp_used_res>mask_params)",
                             "nested(mask_params>mask_params)", "nested(mask_params>factor_iteration)", "nested(factor_iteration>mask_params)",
+                            "nested(mask_params>temp_params)", "nested(mask_params>temp_params(positional))", "temp_used_res(all resonances)",
                             "partial_weight", "partial_weight_interference", "temp_config", "temp_params", "temp_params(positional)",
                             "temp_total_gls_one", "temp_used_res", "vm.mask_params", "vm.temp_params"]},
 }
@@ -105,6 +106,7 @@ def run(ctx):
             "params": {k: float(v) for k, v in amp.get_params().items()},
             "chains_idx": list(dg.chains_idx),
             "mask_vars": {k: float(v) for k, v in amp.vm.mask_vars.items()},
+            "bounds": sorted(amp.vm.bnd_dic),
             "mask_factor": [(str(c), bool(getattr(c, "mask_factor", False))) for c in dg] + [(str(d), bool(getattr(d, "mask_factor", False))) for c in dg for d in c],
             "ls": [(str(d), None if d.ls_list is None else tuple(map(tuple, d.ls_list)), None if d.ls_index is None else tuple(d.ls_index)) for c in dg for d in c],
             "config_vm": id(tconfig.get_config("vm")) if tconfig.get_config("vm", None) is not None else None,
@@ -147,13 +149,15 @@ def run(ctx):
         tag = "_c17s%di%d" % (ctx.seed, i)
         try:
             card = cards.CardGen(rng, tag, nbody=3, n_chains=(2, 3), res_per_slot=(1, 2), final_j2=(0, 0, 1, 2), models=("default", "BW"), decay_opts_prob=0.1).make()
+            traced = i % 4 == 3  # every fourth card evaluates through a traced tf.function (use_tf_function: True)
             with quiet():
-                cfg = cards.load(card)
+                cfg = cards.load(card, extra_data={"use_tf_function": True} if traced else None)
                 amp = cfg.get_amplitude()
                 amp.set_params(cards.random_params(amp, (ctx.seed, i)))
         except Exception as e:
             ctx.count("card_failed")
             continue
+        ctx.covered("evaluation", "traced" if traced else "eager")
         dg = amp.decay_group
         nch = len(dg.chains)
         ps = cards.events(card, 24, rng, classes=False)
@@ -165,7 +169,28 @@ def run(ctx):
         pnames = sorted(amp.get_params())
         some = {k: float(rng.uniform(-1, 1)) for k in rng.choice(pnames, size=min(3, len(pnames)), replace=False)}
         restricted = sorted(rng.choice(nch, size=max(1, nch - 1), replace=False).tolist())
-        ctx.context = {"card": cards.short(card), "index": i}
+        # every second card: bounds installed on one or two of the overridden parameters (as during a fit with var_range / m_min..m_max)
+        bounded = {}
+        if i % 2 == 1:
+            for k in list(some)[:2]:
+                v_ = float(amp.get_params()[k])
+                bounded[k] = [(v_ - 1.5, v_ + 2.0), (v_ - 1.5, None), (None, v_ + 2.0)][int(rng.integers(3))]
+            # the overriding values must lie inside the bounds
+            for k, (lo_, hi_) in bounded.items():
+                v_ = float(amp.get_params()[k])
+                some[k] = v_ + float(rng.uniform(-0.7, 0.9))
+            amp.vm.set_bound(bounded)
+        ctx.covered("bounds_installed", bool(bounded))
+        if traced:
+            try:
+                with quiet():
+                    amp(probe)
+                    amp(probe)  # the second call with the same object goes through the traced function
+            except Exception as e:
+                ctx.count("traced_evaluation_declined")
+                ctx.note("traced evaluation declined: %r" % (e,))
+                continue
+        ctx.context = {"card": cards.short(card), "index": i, "traced": traced, "bounded": sorted(bounded)}
         vm0 = tconfig.get_config("vm", None)
 
         # ---------------- operations: op(body) ; body is called inside the innermost block (may raise)
@@ -240,6 +265,24 @@ def run(ctx):
                     amp(probe)
                     body()
 
+        def nested6(body):
+            with amp.mask_params({pnames[0]: 0.5}):
+                with amp.temp_params(some):
+                    amp(probe)
+                    body()
+
+        def nested7(body):
+            with amp.mask_params({pnames[0]: 0.5, pnames[-1]: 0.25}):
+                with amp.temp_params([float(v_) + 0.37 for v_ in amp.vm.get_all_val()]):
+                    amp(probe)
+                    body()
+
+        def nested8(body):
+            # all resonances selected inside a block that started from whatever selection was active
+            with amp.temp_used_res(res_names):
+                amp(probe)
+                body()
+
         def nested4(body):
             with amp.mask_params({pnames[0]: 0.5}):
                 for _ in amp.factor_iteration(deep=2):
@@ -253,6 +296,7 @@ def run(ctx):
             body()
 
         ops = {
+            "nested(mask_params>temp_params)": nested6, "nested(mask_params>temp_params(positional))": nested7, "temp_used_res(all resonances)": nested8,
             "nested(mask_params>mask_params)": nested3, "nested(mask_params>factor_iteration)": nested4, "nested(factor_iteration>mask_params)": nested5,
             "partial_weight": op_partial_weight, "partial_weight_interference": op_partial_interf, "fit_fractions(old)": op_ff_old,
             "fit_fractions(new)": op_ff_new, "cal_fitfractions": op_cal_ff, "factor_iteration": op_factor_iter, "build_amp_matrix": op_amp_matrix,
@@ -269,7 +313,11 @@ def run(ctx):
         op_names = list(ops)
         # a rotating subset per card in the quick tier
         if ctx.tier == "quick":
-            op_names = [op_names[(i * 6 + j) % len(op_names)] for j in range(6)]
+            op_names = [op_names[(i * 7 + j) % len(op_names)] for j in range(7)]
+            # the operations whose outcome depends on the card class are always run on that class
+            extra_ops = (["temp_used_res(all resonances)", "factor_iteration", "temp_used_res"] if traced else []) + \
+                (["vm.temp_params", "temp_params", "nested(mask_params>temp_params)"] if bounded else [])
+            op_names += [o for o in extra_ops if o not in op_names]
         for start in ("full", "restricted"):
             if start == "restricted" and nch < 2:
                 continue
